@@ -84,5 +84,9 @@ Section C13m.
   Qed.
 End C13m.
 
+(* non-vacuity: two structurally different markers that compare == *)
+Example C13m_runs n a b : marker_eqb (MEqU n [a; b]) (MEqU n [b; a]) = true.
+Proof. cbn [marker_eqb]. rewrite str_eqb_refl. unfold set_eqb. cbn. rewrite !str_eqb_refl, !orb_true_r. reflexivity. Qed.
+
 Definition C13m_all := (C13m_refl, C13m_sym, C13m_trans, C13m_same_meaning, C13m_interchangeable, C13m_interchangeable_l).
 Redirect "C13m.assumptions" Print Assumptions C13m_all.
